@@ -4,6 +4,7 @@ CONSTANTS
     BadRates = {"-0.1", "1.1", "100", "NaN", "-Inf", "+Inf"}
     Sids = {"s1", "s2"}
     Rids = {"r1", "r2"}
+    Window = 0
     Mode = "tree"
     Depth = 40
 CHECK_DEADLOCK FALSE
